@@ -467,6 +467,55 @@ func runC10(c *Ctx) {
 			{"op": "MatchTx", "desc": desc[:1], "salt": salt}}
 		c.Run(calls)
 	}
+	// twin outputs: two neighbouring outputs with byte-identical matching scripts; each must get its own outpoint
+	for k := 0; k < c.Pick(48, 400); k++ {
+		kind := []string{"pk", "ms", "pkh", "push"}[k%4]
+		twin := map[string]interface{}{"kind": kind, "item": 0, "item2": 1}
+		outs := []interface{}{twin, twin}
+		if k%3 == 0 {
+			outs = []interface{}{map[string]interface{}{"kind": "push", "item": 2, "item2": 2}, twin, twin, twin}
+		}
+		last := len(outs) - 1
+		other := []interface{}{map[string]interface{}{"kind": "push", "item": 3, "item2": 3}}
+		desc := []interface{}{
+			map[string]interface{}{"outs": outs, "ins": []interface{}{map[string]interface{}{"parent": -1, "out": 0, "sig": -1, "ext": k % 200}}},
+			map[string]interface{}{"outs": other, "ins": []interface{}{map[string]interface{}{"parent": 0, "out": last, "sig": -1, "ext": 0}}},
+			map[string]interface{}{"outs": other, "ins": []interface{}{map[string]interface{}{"parent": 0, "out": last - 1, "sig": -1, "ext": 1}}},
+		}
+		salt := int(r.Int31n(60000))
+		fl := 1 + k%2 // update-all, and pubkey-only
+		c.Run([]Event{loadCall(c, "LoadFilter", 512, 1+k%4, randTweak(c, k), fl, true),
+			{"op": "Add", "item": ints(scriptItem(kind, poolItem(0)))},
+			{"op": "MatchTx", "desc": desc[:1], "salt": salt}, {"op": "MatchTx", "desc": desc[:2], "salt": salt}, {"op": "MatchTx", "desc": desc[:3], "salt": salt}})
+		for _, ord := range [][]int{{0, 1, 2}, {2, 1, 0}, {1, 0, 2}} {
+			c.Call(Event{"op": "ScanBlock", "desc": desc, "order": ord, "fitems": []interface{}{map[string]interface{}{"t": "item", "k": 0, "kind": kind}},
+				"salt": salt, "flags": fl, "nbytes": 4096, "nhash": 3, "tweak": w32(uint32(k)), "src": "twins"})
+		}
+	}
+	// a filter that is queried while its bit array is still empty and then receives a populated message through Reload
+	for k := 0; k < c.Pick(12, 120); k++ {
+		nb, nh, fl := []int{8, 64, 512}[k%3], 1+k%4, k%3
+		tweak := randTweak(c, k)
+		plan := bloom.LoadFilter(wire.NewMsgFilterLoad(make([]byte, nb), uint32(nh), tweak, wire.BloomUpdateType(fl)))
+		plan.Add(poolItem(0))
+		bits := []int{}
+		for i, b := range plan.MsgFilterLoad().Filter {
+			for j := 0; j < 8; j++ {
+				if b&(1<<uint(j)) != 0 {
+					bits = append(bits, i*8+j)
+				}
+			}
+		}
+		desc := []interface{}{
+			map[string]interface{}{"outs": []interface{}{map[string]interface{}{"kind": "pk", "item": 0, "item2": 1}}, "ins": []interface{}{map[string]interface{}{"parent": -1, "out": 0, "sig": -1, "ext": k % 200}}},
+			map[string]interface{}{"outs": []interface{}{map[string]interface{}{"kind": "push", "item": 2, "item2": 2}}, "ins": []interface{}{map[string]interface{}{"parent": 0, "out": 0, "sig": -1, "ext": 0}}},
+		}
+		salt := int(r.Int31n(60000))
+		empty := Event{"op": "LoadFilter", "nil": false, "nbytes": nb, "nhash": nh, "tweak": w32(tweak), "flags": fl, "setbits": []int{}}
+		c.Run([]Event{empty, {"op": "MatchTx", "desc": desc[:1], "salt": salt}, {"op": "Matches", "item": ints(poolItem(0))},
+			{"op": "Reload", "nil": false, "nbytes": nb, "nhash": nh, "tweak": w32(tweak), "flags": fl, "setbits": bits},
+			{"op": "Matches", "item": ints(poolItem(0))}, {"op": "MatchTx", "desc": desc[:1], "salt": salt}, {"op": "MatchTx", "desc": desc[:2], "salt": salt}})
+	}
 	// block scans: random spend DAGs in topological, reverse and random order
 	c.Batch = 10
 	scanCases(c)
